@@ -69,7 +69,13 @@ static const int FSV[5]={8000,12000,16000,24000,48000};
 #define FSMAX (FSI==0?8000:FSI==1?12000:FSI==2?16000:FSI==3?24000:48000)
 void harness(void){
   struct { OpusDecoder d; char tail[64]; } S; OpusDecoder *st=&S.d;
-  st->Fs=FSV[FSI]; g_Fs=st->Fs; st->channels=vt_range(1,2); g_ch=st->channels;
+  st->Fs=FSV[FSI]; g_Fs=st->Fs;
+#ifdef CHSEL
+  st->channels=CHSEL;
+#else
+  st->channels=vt_range(1,2);
+#endif
+  g_ch=st->channels;
   st->silk_dec_offset=sizeof(OpusDecoder); st->celt_dec_offset=sizeof(OpusDecoder)+32;
   st->DecControl.API_sampleRate=st->Fs; st->DecControl.nChannelsAPI=st->channels; st->arch=0; st->decode_gain=0; st->complexity=vt_range(0,10);
 #ifdef GAIN
@@ -108,12 +114,10 @@ void harness(void){
   __CPROVER_assume(frame_size<=F10);
 #endif
 #ifdef PLCONLY
-  /* quick-tier bound: requests up to 20 ms (+3 samples); the buffer ENDS at the end of its object, so a write behind the request is a bounds failure */
-  __CPROVER_assume(frame_size<=F20+3);
-  g_cap=frame_size*st->channels; static float pcm_store[2*(FSMAX/50+3)]; g_pcm=pcm_store+(2*(FSMAX/50+3)-g_cap);
-#else
-  g_cap=frame_size*st->channels; g_pcm=(float*)vt_alloc(sizeof(float)*g_cap);
+  /* quick-tier bound: requests up to 10 ms (+3 samples) */
+  __CPROVER_assume(frame_size<=F10+3);
 #endif
+  g_cap=frame_size*st->channels; g_pcm=(float*)vt_alloc(sizeof(float)*g_cap);
   int fs0=st->frame_size, mode0=st->mode, pm0=st->prev_mode, pr0=st->prev_redundancy;
   int r=opus_decode_frame(st, usenull?(const unsigned char*)0:pkt, usenull?0:len, g_pcm, frame_size, fec);
   VASSERT(r==OPUS_BUFFER_TOO_SMALL||r==OPUS_BAD_ARG||r==OPUS_INTERNAL_ERROR||(r>0&&r<=frame_size),"documented error or 0 < n <= frame_size");
